@@ -245,7 +245,9 @@ func getObjectValueFromKey(v interface{}, key string) (interface{}, error) {
 	switch rt.Kind() {
 	case reflect.Map:
 		mv := rv.MapIndex(reflect.ValueOf(key))
-		if mv.Kind() == 0 || mv.IsZero() {
+		// only a missing key reads as null; a present key keeps its value even when that
+		// value is the zero value of the map's element type (0, "", false)
+		if !mv.IsValid() {
 			return nil, nil
 		}
 		return mv.Interface(), nil
